@@ -21,6 +21,11 @@ fn expect_value(tb: &[OpSpec], want: &Term, want_vars: &[String], obs: &[Obs], q
             (Query::Eval(n), other) | (Query::EvalVec(n), other) if *n == want_vars.len() => { ok = false; note = format!("{q:?}: got {} want {}", pretty_obs(other), want.pretty()); }
             (Query::Vars, Obs::S(v)) => if v != want_vars { ok = false; note = format!("vars {v:?} want {want_vars:?}"); },
             (Query::Vars, other) => { ok = false; note = format!("vars: {}", pretty_obs(other)); }
+            // operator listings: strictly ascending (sorted, duplicate-free) names of the table
+            (Query::BinReprs, Obs::S(v)) | (Query::UnReprs, Obs::S(v)) | (Query::OpReprs, Obs::S(v)) => {
+                if !v.windows(2).all(|w| w[0] < w[1]) { ok = false; note = format!("{q:?}: listing {v:?} is not sorted and duplicate-free"); }
+                else if let Some(x) = v.iter().find(|x| !tb.iter().any(|o| &o.repr == *x)) { ok = false; note = format!("{q:?}: listing {v:?} contains {x:?}, which is no operator of the table"); }
+            }
             _ => (),
         }
     }
